@@ -33,7 +33,7 @@ fn floors(_t: Tier) -> Vec<(&'static str, u64)> {
     vec![("evaluations", 8_000), ("refusals_observed", 200), ("softmax_rows_monitored", 300), ("elements_compared", 50_000)]
 }
 
-const FUNCS: u64 = 34;
+const FUNCS: u64 = 35;
 const POWF_EXP: [f64; 8] = [-2.0, -1.0, -0.5, 0.5, 1.0, 2.0, 3.0, 3.5];
 
 fn check_value(ctx: &mut Ctx, name: &str, d: &[usize], vals_in: &[f64], kind: &OpKind, exact: bool) {
@@ -299,6 +299,14 @@ pub fn run_case(ctx: &mut Ctx, fam: &str, k: u64, r: &mut Rng) {
             let lim = if IS_F32 { 126 } else { 1022 };
             let v: Vec<f64> = (0..n).map(|_| (2.0f64).powi(r.int(-(lim as i64), lim as i64) as i32) * if r.chance(1, 2) { -1.0 } else { 1.0 }).collect();
             check_value(ctx, "reciprocal", &d, &v, &OpKind::Recip, false)
+        }
+        34 => {
+            // scaling by a subnormal / tiny / huge power of two: small integers times 2^e, exact as long as the product is
+            // representable
+            name = "scale-extreme".into();
+            let e: i32 = if IS_F32 { *r.pick(&[-140, -130, -127, -100, 100, 120]) } else { *r.pick(&[-1060, -1030, -1023, -900, 900, 1000]) };
+            let small: Vec<f64> = (0..n).map(|_| r.int(-8, 8)).collect();
+            check_value(ctx, "scale", &d, &small, &OpKind::Scale((2.0f64).powi(e)), true)
         }
         33 => {
             // rows of a thousand and more values, several of them: every row is reduced on its own
